@@ -25,6 +25,10 @@ func propC01(r *Report, tier string) {
 	ruleUpsidedownWriters(r)
 	ruleUpsidedownDeleteKeys(r, "K8-upsidedown-delete-keys")
 	ruleStoredTypeTags(r)
+	ruleNilGuardProtectsItsSubject(r, "K12-nil-guard-subject", "index/upsidedown", "index/scorch")
+	ruleMergeUsingAlignment(r, "K14-merge-input-alignment")
+	ruleFlushableAlignment(r, "K14-merge-input-alignment")
+	ruleParallelSlicesResetTogether(r, "K14-parallel-slices-reset-together", "index/scorch", "index/upsidedown")
 	r.Floor("K5dep-obsoletes-union", 3)
 	r.Floor("K8-exclusion-at-read-sites", 6)
 	r.Floor("K5-upsidedown-count", 4)
